@@ -40,7 +40,7 @@ def scheme(kind, rng):
         return f
     if kind == "long-prefix":      # long names that agree in their first 16 / 32 characters; a non-ASCII one
         return lambda ns: {n: ["$TemperatureReadingCelsius", "$TemperatureReadingKelvin", "$A_name_of_more_than_thirty_two_characters_1",
-                               "$A_name_of_more_than_thirty_two_characters_2", "$\u00c9t\u00e9", "$\u00c9t\u00e9s", "$TemperatureReading", "$A_name_of_more_than_thirty_two_characters_"][k % 8] + ("" if k < 8 else str(k))
+                               "$A_name_of_more_than_thirty_two_characters_2", "$\u00c9t\u00e9", "$\u00c9t\u00e9s", "$FirstElement", "$LastElement", "$LeftNeighbour", "$RightNeighbour"][k % 10] + ("" if k < 10 else str(k))
                            for k, n in enumerate(ns)}
     def fresh(ns):                 # unrelated fresh names, different in every clause
         return {n: "$%s%d" % (rng.choice(["Var", "q", "Tmp_", "Z"]), rng.randrange(1000)) + str(k) for k, n in enumerate(ns)}
@@ -93,7 +93,7 @@ def known_class(case, tag):
 
 RULE = ("random programs (cut, not, print, disjunctions, built-ins, recursive library predicates) solved as written and under "
         "four renamings of the variables of every clause: every clause uses $X,$Y,$Z.. in order of first occurrence; every "
-        "clause reuses the query's names $A,$B,..; the clause's own names permuted; unrelated fresh names; long names that agree in their first 16 / 32 characters and non-ASCII names. Relation on the "
+        "clause reuses the query's names $A,$B,..; the clause's own names permuted; unrelated fresh names; long names that agree in their first 16 / 32 or their last 8 characters and non-ASCII names. Relation on the "
         "implementation's own observations: same answers in the same order (resolved query compared up to renaming of unbound "
         "variables), same solve/solve_all texts and same output (variable names and ids in printed unbound variables masked). "
         "The same for programs given as SOURCE TEXT (parse_rule / parse_query), renamed to names that differ only after an underscore "
